@@ -9,7 +9,11 @@ same result iff no byte is read *through the input parameter* after it was writt
 (flow dependence created by the aliasing).  Accesses are labelled with the parameter they derive from (provenance
 survives pointer arithmetic), so reads of the in-place kernels through the output pointer are not confused with input
 reads.  All other memory obligations (C11) are re-checked on the aliased instantiation.
-Not decided here: the values computed by the dedicated in-place kernels (rotation/automorphism orbit walks, C09)."""
+Value clause (E4): in addition, for every pattern and shape of the (smaller) value box the expression left in each
+declared output location by the aliased call equals the expression the out-of-place call stores there (inputs renamed
+to the shared buffer; a location the aliased call does not write keeps the buffer's initial content) - this covers
+zero-extension while aliased and the dedicated in-place rotation/automorphism kernels for the sampled p.
+Not decided here: that the out-of-place rotation/automorphism is the right ring map (C09)."""
 from collections import defaultdict
 
 from .. import ctx
@@ -46,12 +50,96 @@ def alias_findings(run, out_name, in_name):
     return F
 
 
+def value_equivalence(R, tier, L):
+    """E4: the aliased call stores, in every declared output location, the expression the out-of-place call stores
+    (with the input renamed to the shared buffer); an unwritten location keeps the shared buffer's initial content."""
+    from ..equiv import final_state, has_unknown, rename
+    from ..values import Canon, fmt, sym
+    box = ApiBox(L)
+    kbox = KBox(L)
+    K = KERNELS(tier)
+    cn = Canon()
+    n = ncmp = 0
+
+    def compare(mk, out_name, in_name, shapes):
+        nonlocal n, ncmp
+        bad = None
+        for sh in shapes:
+            try:
+                ra = mk(sh, None)
+                rb = mk(sh, (out_name, in_name))
+            except (Unsupported, NeedEnum) as e:
+                R.broke('%s' % e)
+                continue
+            n += 1
+            if ra.status != 'ok' or rb.status != 'ok':
+                if ra.status != rb.status:
+                    bad = bad or (sh, 'out-of-place call %s, aliased call %s' % (ra.status, rb.status))
+                continue
+            sa = final_state(ra, ('out',)).get(out_name, {})
+            sb = final_state(rb, ('out',)).get(out_name, {})
+            memo = {}
+            decl = ra.bufs[out_name].declared
+            for lo, hi in decl:
+                for off in range(lo, hi, 8):
+                    va = sa.get(off)
+                    if va is None or va[0] != 8:
+                        continue  # different granularity (i128 stores ...): not comparable here
+                    vb = sb.get(off)
+                    if vb is not None and vb[0] != 8:
+                        continue
+                    xa = rename(va[1], {in_name: out_name}, memo)
+                    xb = vb[1] if vb is not None else sym('in', out_name, off, 8)
+                    if has_unknown(xa) or has_unknown(xb):
+                        continue
+                    ncmp += 1
+                    try:
+                        same = cn.key(xa) == cn.key(xb)
+                    except OverflowError:
+                        continue
+                    if not same:
+                        bad = bad or (sh, '`%s`+%d: out-of-place call stores %s, call with %s==%s leaves %s' % (
+                            out_name, off, fmt(xa)[:100], out_name, in_name, fmt(xb)[:100]))
+        return bad
+
+    for name, spec in API.items():
+        for al in spec.get('alias', []):
+            mods = [FFT64]
+            if name in NTT120_FUNCS and 'ntt120' in spec.get('alias_modules', ['fft64', 'ntt120']):
+                mods.append(NTT120)
+            for mtype in mods:
+                for cpu in (('accel', 'generic') if mtype == FFT64 else ('accel',)):
+                    shapes = [sh for sh in shapes_for(name, tier, al) if sh['N'] <= (8 if tier == 'quick' else 16)]
+                    bad = compare(lambda sh, a: box.instantiate(name, sh, cpu, mtype, alias=a, expand='values'), al[0], al[1], shapes)
+                    subj = '%s [%s==%s,%s,%s]' % (name, al[0], al[1], 'fft64' if mtype == FFT64 else 'ntt120', cpu)
+                    if bad:
+                        R.ob('aliased-call-stores-the-out-of-place-values', subj, 'refuted', detail=bad[1],
+                             key='%s:%s==%s:values' % (name, al[0], al[1]), witness=dict(bad[0], cpu=cpu))
+                    else:
+                        R.ob('aliased-call-stores-the-out-of-place-values', subj, 'holds', detail='%d shapes' % len(shapes))
+    for name, spec in sorted(K.items()):
+        for al in spec.get('alias', []):
+            for cpu in spec.get('cpus', ('accel', 'generic')):
+                shapes = [sh for sh in spec['dom'] if max([v for v in sh.values() if isinstance(v, int)] + [0]) <= 32]
+                bad = compare(lambda sh, a: kbox.instantiate(name, spec, sh, cpu, alias=a, expand='values'), al[0], al[1], shapes)
+                subj = 'kernel %s [%s==%s,%s]' % (name, al[0], al[1], cpu)
+                if bad:
+                    R.ob('aliased-call-stores-the-out-of-place-values', subj, 'refuted', detail=bad[1],
+                         key='%s:%s==%s:values' % (name, al[0], al[1]), witness=dict(bad[0], cpu=cpu))
+                else:
+                    R.ob('aliased-call-stores-the-out-of-place-values', subj, 'holds', detail='%d shapes' % len(shapes))
+    return n, ncmp
+
+
 def run(tier):
     R = Report('C13', tier)
     L = ctx.lib()
     box = ApiBox(L)
     nruns = 0
     npat = 0
+    nv, ncmp = value_equivalence(R, tier, L)
+    R.floor('value-mode (out-of-place, aliased) instantiation pairs', nv, 3000)
+    R.floor('output locations compared between aliased and out-of-place calls', ncmp, 30000)
     for name, spec in API.items():
         for al in spec.get('alias', []):
             mods = [FFT64]
